@@ -515,6 +515,7 @@ pub fn permutations(n: usize) -> Vec<Vec<usize>> {
 
 thread_local! {
     static PANIC_LOCATION: std::cell::RefCell<Option<String>> = const { std::cell::RefCell::new(None) };
+    static GUARD_DEPTH: std::cell::Cell<u32> = const { std::cell::Cell::new(0) };
 }
 
 /// Silence the default panic hook output for panics that are caught on purpose; the hook records the
@@ -522,6 +523,10 @@ thread_local! {
 pub fn quiet_panics() {
     std::panic::set_hook(Box::new(|info| {
         let loc = info.location().map(|l| format!("{}:{}", l.file(), l.line())).unwrap_or_else(|| "?".into());
+        if GUARD_DEPTH.with(|d| d.get()) == 0 {
+            // not inside a guarded call of the subject: nobody will catch this one, say what happened
+            eprintln!("MACHINERY-ERROR: panic outside a guarded call at {loc}: {info}");
+        }
         PANIC_LOCATION.with(|l| *l.borrow_mut() = Some(loc));
     }));
 }
@@ -529,15 +534,22 @@ pub fn quiet_panics() {
 /// Run `f`, converting a panic of the subject into Err((location, message)).
 pub fn guarded<T>(f: impl FnOnce() -> T) -> Result<T, (String, String)> {
     PANIC_LOCATION.with(|l| *l.borrow_mut() = None);
-    match std::panic::catch_unwind(std::panic::AssertUnwindSafe(f)) {
+    GUARD_DEPTH.with(|d| d.set(d.get() + 1));
+    let r = std::panic::catch_unwind(std::panic::AssertUnwindSafe(f));
+    GUARD_DEPTH.with(|d| d.set(d.get().saturating_sub(1)));
+    match r {
         Ok(v) => Ok(v),
         Err(e) => {
             let loc = PANIC_LOCATION.with(|l| l.borrow().clone()).unwrap_or_else(|| "?".into());
-            let loc = loc.replace("/repo/", "");
             if loc.starts_with("/verif/") || loc.contains("harness/src/") {
                 eprintln!("MACHINERY-ERROR: the harness itself panicked at {loc}: {}", panic_message(&e));
                 std::process::exit(2);
             }
+            // path inside the library's tree, wherever that tree is checked out
+            let loc = match loc.find("/src/") {
+                Some(i) if !loc.contains("/.cargo/") && !loc.contains("/rustc/") => loc[i + 1..].to_string(),
+                _ => loc,
+            };
             Err((loc, panic_message(&e)))
         }
     }
